@@ -8,5 +8,10 @@ EXTRA = {
     "C01": (("gen_tables_time.py",), (float_grid.check_float_grid,)),
     # Props/C02Float.v, Props/C05Float.v: the note-off and action due tests generated from the source
     "C02": (("gen_tables_time.py",), ()),
-    "C05": (("gen_tables_time.py",), ()),
+    "C05": (("gen_tables_time.py", "gen_tables_sched.py"), ()),   # + Timeline._schedule_action -> Sched/SchedTimeSrc.v, Props/C05Src.v
+    # the source translators of docs/TRANSLATOR2.md (harness/src2coq.py): function bodies -> Generated/Tables<X>.v, tied to the
+    # models by <Dir>/<Model>Src.v, property theorems restated in Props/<ID>Src.v
+    "C13": (("gen_tables_tonal.py",), ()),     # Scale.get, Key.get/semitones/__contains__/nearest_note -> Tonal/KeySrc.v, Props/C13Src.v
+    "C14": (("gen_tables_mult.py",), ()),      # isobar/util.py make_clock_multiplier -> Clock/MultiplierSrc.v, Props/C14Src.v
+    "C20": (("gen_tables_notation.py",), ()),  # isobar/notation/notation.py parse_notation -> Notation/ParserSrc.v, Props/C20Src.v
 }
